@@ -39,6 +39,9 @@ type Config struct {
 	// Prefix: argv is an unfinished command line (completion): no end-of-line checks, and an
 	// argument-taking option at the very end is recorded as pending instead of being a fault.
 	Prefix bool
+	// Held: options that an earlier parse on the same parser gave an explicit value; the field still holds it (the value
+	// given here) and, as the earlier occurrence keeps defaults from being applied, it stays unless the option occurs again.
+	Held map[*decl.Opt]reflect.Value
 }
 
 // Fault is one reason to reject.
@@ -625,6 +628,10 @@ func (r *Result) Values(cfg *Config) (vals map[*decl.Opt]reflect.Value, unspecif
 			continue
 		}
 		// not on the command line: env, then default tags, then the initial value
+		if hv, ok := cfg.Held[o]; ok {
+			vals[o] = hv
+			continue
+		}
 		var src []string
 		has := false
 		if o.EnvNS != "" {
@@ -732,6 +739,9 @@ func (m *clm) finish() {
 				} else if v, err := strconv.Atoi(a.Required); err == nil {
 					lo = v
 				}
+			}
+			if a.MaxAPI > 0 {
+				hi = a.MaxAPI // set by the program; no minimum comes with it
 			}
 			if (lo >= 0 && n < lo) || (hi >= 0 && n > hi) {
 				unmet = append(unmet, a.ShownName())
